@@ -5,8 +5,8 @@
    come from the tables; apply_op D (R,t) k = R k + t*(D/12); red D = componentwise mod D;
    img D g off x = red (g (x + off) - off)   [what expandPosition computes for sgoffset = off]. *)
 From Coq Require Import ZArith List Bool Permutation.
-From DS Require Import Base.ZMat Base.SGDefs Model.GroupCheck Model.C02_Orbit Gen.SGTables.
-From DS Require Import Proofs.C02_Action Proofs.C02_Expand Proofs.C02_OrbitStab Proofs.C02_All.
+From DS Require Import Base.ZMat Base.SGDefs Model.GroupCheck Model.C02_Orbit Model.C02_Eps Gen.SGTables.
+From DS Require Import Proofs.C02_Action Proofs.C02_Expand Proofs.C02_OrbitStab Proofs.C02_EpsSound Proofs.C02_All.
 Open Scope Z_scope.
 
 (* For ANY operation list that is a group modulo lattice translations (the C03 predicate), any modulus D > 0
@@ -45,3 +45,37 @@ Theorem C02_action_respects_composition : forall D a b y, (12 | D) ->
   veqm D (apply_op D (compose a b) y) (apply_op D a (apply_op D b y)).
 Proof. exact apply_compose. Qed.
 Print Assumptions C02_action_respects_composition.
+
+(* Model/C02_Eps.v is a line-by-line model of expandPosition (bucket tuples of _Position2Tuple with the exact
+   value of the double (1e-5+1.0)-1.0, nearestSiteIndex = first minimum of the periodic box distance,
+   equalPositions with the exact value of the double 1e-5, the dictionary of shared list objects).
+   For ANY operation list (no group hypothesis needed) and any site whose distinct images are farther apart
+   than 2e-5 in periodic box distance, it returns exactly the exact expansion. *)
+Theorem C02_eps_refines_exact : forall D G off x, 0 < D -> separated D G off x ->
+  expand_eps D G off x = expand_exact D G off x.
+Proof. exact expand_eps_exact. Qed.
+Print Assumptions C02_eps_refines_exact.
+
+(* hence the tolerance algorithm returns the orbit with all clauses, for every tabulated setting and every
+   separated site (general or exactly on a special position, outside the cell, shifted origin) *)
+Theorem C02_eps_orbit_all_settings : forall s D off x, In s all_settings -> 0 < D -> (12 | D) ->
+  separated D (sg_ops s) off x ->
+  let G := sg_ops s in
+  let '(pos, ops, m) := expand_eps D G off x in
+  NoDup pos /\ (forall p, In p pos -> in_cell D p) /\ hd_error pos = Some (red D x) /\
+  (forall p, In p pos <-> exists g, In g G /\ p = img D g off x) /\
+  attribution_ok D G off x pos ops /\ Permutation (concat ops) G /\ m = List.length pos /\
+  (m * List.length (stab D G off x))%nat = List.length G.
+Proof. exact expand_eps_spec_tabulated. Qed.
+Print Assumptions C02_eps_orbit_all_settings.
+
+(* PARTIAL: sites within tolerance of a special position (images closer than 2e-5 but not equal) are outside
+   the separation hypothesis; there the model provably differs from the exact expansion of the given site
+   (it merges, Example eps_merges_within_tolerance) and the statement "the result is the orbit structure of the
+   nearby special position", as well as the snap step of GeneratorSite, is established by the correspondence
+   check (model = implementation) plus the exact-fraction oracle only. *)
+Theorem C02_near_special_partial :
+  let G := (I3, v0) :: (M3 (-1) 0 0 0 (-1) 0 0 0 (-1), v0) :: nil in
+  snd (expand_eps 120000000 G v0 (V3 12 0 0)) = 1%nat /\ snd (expand_exact 120000000 G v0 (V3 12 0 0)) = 2%nat.
+Proof. exact eps_merges_within_tolerance. Qed.
+Print Assumptions C02_near_special_partial.
